@@ -24,6 +24,7 @@ import (
 	"verifharness/lib/refamf0"
 	"verifharness/lib/refavc"
 	"verifharness/lib/refflv"
+	"verifharness/lib/refocsp"
 	"verifharness/lib/vrand"
 )
 
@@ -369,7 +370,21 @@ func ocspSeed(r *vrand.Rand) []byte {
 	if len(ocspVectors) == 0 {
 		return []byte{0x30, 0x03, 0x0a, 0x01, 0x01}
 	}
-	return append([]byte(nil), ocspVectors[r.Intn(len(ocspVectors))]...)
+	if r.Bool() {
+		return append([]byte(nil), ocspVectors[r.Intn(len(ocspVectors))]...)
+	}
+	// structured responses from the independent RFC 6960 builder: every CHOICE arm / OPTIONAL field,
+	// field values inside and outside their defined ranges
+	o := refocsp.Options{CertStatus: r.Intn(3), WithReason: r.Bool(), WithNext: r.Bool(), ByKey: r.Bool(), SHA256: r.Bool(),
+		SingleExt: r.Chance(1, 4), RespExt: r.Chance(1, 4), Responses: r.Pick(1, 1, 1, 2, 5), Serial: int64(r.Uint32())}
+	o.Reason = r.Pick(0, 1, 2, 3, 4, 5, 6, 8, 9, 10, 7, 11, 127, 128, 255, 256, 65535, -1, -2, -128, -129, 1<<31-1, -(1 << 31))
+	if r.Chance(1, 10) {
+		o.ResponseStatus = r.Pick(1, 2, 3, 5, 6, 4, 7, 255, -1)
+	}
+	if r.Chance(1, 4) {
+		o.Certs = append(o.Certs, ocspVectors[r.Intn(len(ocspVectors))]) // some vectors are certificates, some are not
+	}
+	return refocsp.Build(o)
 }
 
 // ---- the table -------------------------------------------------------------------------------
